@@ -174,6 +174,10 @@ class C08(Scenario):
         if cur:
             batches.append([rng.choice(gaps), cur])
         sched = draw_sched(cfg, line=True, pct_k=600, step_cap=150_000, horizon=3600)
+        frng = random.Random(f"{seed}:faults")
+        if d and frng.random() < 0.2:
+            # wall-clock steps while a first half waits out the pairing delay ("the delay" is real elapsed time)
+            sched["clock_jumps"] = [[frng.randrange(0, 6 * d + 1), frng.choice([1, -1]) * frng.choice([d // 2, d, 3 * d])] for _ in range(frng.choice([1, 1, 2]))]
         return {"delay": delay, "batches": batches, "pads": [rng.randrange(1, 17) for _ in range(5)], "consumer_stall": rng.choice([0, 0, 0, d // 2, d, 3 * d]),
                 "stall_after": rng.randrange(0, 4), "sched": sched}
 
